@@ -259,3 +259,38 @@ def local_integrity_program(rng):
     L += ["var fbx = Fiber.new(|p| {", "    var l0 = [p]; var l1 = \"in-fiber\";", "    try { print(%s); } catch e { print([type(e), l0, l1]); }" % call,
           "    var got = Fiber.yield(l0);", "    return [l0, l1, got];", "});", "print(fbx.call(7));", "print(fbx.call(8));"]
     return "\n".join(L) + "\n"
+
+
+def finally_paths_program(rng):
+    """every way of leaving a try that has a finally - `return value`, a bare `return`, falling off the end, a throw caught
+    by the caller, a constructor's `return` - with a finally block that does real work through script-level calls
+    (a function, a method, a closure, an iterator chain of the core library: none of them contains a try). Afterwards the
+    program checks what came back, how often each cleanup ran, and that no handler was left installed (a later throw must
+    reach the handler that textually encloses it, and a last uncaught throw must be reported as such)."""
+    r = rng
+    L = ["var log = [];", "fn note(x) { log.push(x); return x; }",
+         "#[constructor(new)] class Res { fn release(self, tag) { log.push([\"released\", tag]); return tag; } }", "var res = Res.new();",
+         "var bump = |x| { log.push([\"bump\", x]); return x + 1; };"]
+    cleanups = ["note(\"c%(k)d\");", "res.release(%(k)d);", "bump(%(k)d);", "log.push([1, 2, 3].iter().map(|v| v * %(k)d).collect());",
+                "note(res.release(bump(%(k)d)));", "log.push(\"plain %(k)d\");"]   # nothing that declares a local: known finding K-exc-var-in-finally
+    nf = r.range(2, 5)
+    for k in range(nf):
+        exitk = r.choice(["return_value", "return_bare", "fall", "throw", "return_call", "cond_return"])
+        cl = " ".join(r.choice(cleanups) % {"k": k} for _ in range(r.range(1, 2)))
+        body = {"return_value": "return [\"v\", a];", "return_bare": "if a > 0 { return; }", "fall": "note([\"fall\", a]);",
+                "throw": "throw [\"t\", a];", "return_call": "return note([\"rc\", a]);",
+                "cond_return": "if a == 1 { return \"one\"; } if a == 2 { return; } note(\"past\");"}[exitk]
+        L += ["fn f%d(a) {" % k, "    var before = [a];", "    try {", "        " + body, "    } finally {", "        " + cl, "    }",
+              "    note([\"after try\", a, before]);", "    return \"end%d\";" % k, "}"]
+        for a in r.sample([0, 1, 2], 2):
+            L.append("try { print(f%d(%d)); } catch e { print([\"caller caught\", e]); }" % (k, a))
+    if r.chance(60):
+        L += ["class Conn {", "    #[constructor]", "    fn open(self, port) {", "        self.port = port;", "        try {",
+              "            if port == 0 { return; }", "            self.ready = true;", "        } finally {", "            note([\"ctor cleanup\", port]);", "        }",
+              "        self.late = port;", "    }", "}",
+              "for p in [0, 7] { var c = Conn.open(p); try { print([c.port, c.late]); } catch e { print([c.port, type(e)]); } }"]
+    L += ["print(log);", "try { throw \"later\"; } catch e { print([\"own handler\", e]); }",
+          "fn thrower() { throw \"from thrower\"; }", "try { thrower(); } catch e { print([\"own handler 2\", e]); }", "print(log.len());"]
+    if r.chance(50):
+        L.append("throw \"final uncaught\";")
+    return "\n".join(L) + "\n"
